@@ -97,13 +97,22 @@ def gen_spec(rng):
         tl = "const"
     elif r < 0.25:
         tl = "underscore"
-    return {"kind": kind, "variants": variants, "dv": dv, "marker": marker, "type_level": tl, "entry": rng.choice(["attr", "derive"])}
+    # PartialEq co-derived (before / after Default, same or separate attribute) with #[eq(ignore)] / #[partial_eq(ignore)] on
+    # fields: their defaults are what they are without it
+    co = rng.choice([None, None, None, "first", "last", "split"])
+    if co:
+        for v in variants:
+            for f in v["fields"]:
+                f["eq_ignore"] = rng.choice([None, None, "eq", "partial_eq"])
+    return {"kind": kind, "variants": variants, "dv": dv, "marker": marker, "type_level": tl, "entry": rng.choice(["attr", "derive"]), "co": co}
 
 
-def body_text(v, with_attrs):
+def body_text(v, with_attrs, co=None):
     fs = []
     for i, f in enumerate(v["fields"]):
         a = f"#[default({f['expr']}{f['bound']})] " if (with_attrs and f["expr"] is not None) else ""
+        if with_attrs and co and f.get("eq_ignore"):
+            a = (f"#[{f['eq_ignore']}(ignore)] " + a) if i % 2 else (a + f"#[{f['eq_ignore']}(ignore)] ")
         fs.append(f"{a}f{i}: {f['ty']}" if v["style"] == "named" else f"{a}{f['ty']}")
     if v["style"] == "named":
         return "{ " + ", ".join(fs) + " }"
@@ -123,18 +132,23 @@ def ctor(spec, vi, vals):
 
 
 def render(spec, with_dx=True):
-    head = "#[::derive_ex::derive_ex(Default)]\n" if spec["entry"] == "attr" else "#[derive(::derive_ex::Ex)]\n#[derive_ex(Default)]\n"
+    co = spec.get("co")
+    lists = {None: ["Default"], "first": ["PartialEq, Default"], "last": ["Default, PartialEq"], "split": ["Default", "PartialEq"]}[co]
+    if spec["entry"] == "attr":
+        head = f"#[::derive_ex::derive_ex({lists[0]})]\n" + "".join(f"#[derive_ex({x})]\n" for x in lists[1:])
+    else:
+        head = "#[derive(::derive_ex::Ex)]\n" + "".join(f"#[derive_ex({x})]\n" for x in lists)
     tl = {"make": "#[default(Ty::make())]\n", "const": "#[default(Self::K)]\n", "underscore": "#[default(_)]\n", None: ""}[spec["type_level"]]
     if not with_dx:
         head, tl = "", ""
     if spec["kind"] == "struct":
-        b = body_text(spec["variants"][0], with_dx)
+        b = body_text(spec["variants"][0], with_dx, co)
         item = f"pub struct Ty {b}" if spec["variants"][0]["style"] == "named" else f"pub struct Ty{b};"
     else:
         vs = []
         for i, v in enumerate(spec["variants"]):
             m = (spec["marker"] + " ") if (with_dx and i == spec["dv"] and spec["marker"]) else ""
-            vs.append(f"{m}V{i}{body_text(v, with_dx)}")
+            vs.append(f"{m}V{i}{body_text(v, with_dx, co)}")
         item = "pub enum Ty { " + ", ".join(vs) + " }"
     # the special value used by the type-level forms: last variant / all fields from a fixed alternative list
     sv = len(spec["variants"]) - 1
